@@ -3,17 +3,17 @@ use crate::gen::*;
 
 pub fn dispatch(prop: &str, g: &mut Gen) {
     match prop {
-        "C05" => c05(g),
-        "C01" => crate::gen_bv::c01(g),
+        "C05" => { c05(g); clones(g, &["raw", "iv"]); },
+        "C01" => { crate::gen_bv::c01(g); clones(g, &["bv"]); },
         "C09" => crate::gen_bv::c09(g),
         "C08" => crate::gen_bv::c08(g),
         "C10" => crate::gen_bv::c10(g),
-        "C02" => crate::gen_sp::c02(g),
+        "C02" => { crate::gen_sp::c02(g); clones(g, &["sp"]); },
         "C15" => crate::gen_sp::c15(g),
         "C16" => crate::gen_sp::c16(g),
-        "C03" => crate::gen_rl::c03(g),
-        "C11" => crate::gen_rl::c11(g),
-        "C04" => crate::gen_wm::c04(g),
+        "C03" => { crate::gen_rl::c03(g); clones(g, &["rl"]); },
+        "C11" => { crate::gen_rl::c11(g); clones(g, &["raw", "iv", "bv", "sp", "rl", "wm"]); },
+        "C04" => { crate::gen_wm::c04(g); clones(g, &["wm"]); },
         "C06" => crate::gen_ser::c06(g),
         "C07" => crate::gen_ser::c07(g),
         "C12" => crate::gen_ser::c12(g),
@@ -225,4 +225,131 @@ fn c05(g: &mut Gen) {
         }
     }
     g.group(lines);
+}
+
+
+/// `Clone::clone` of every structure type: the copy answers like the original, is equal to it, serializes to the same
+/// bytes, and — for the mutable types — is unaffected by what happens to the original afterwards
+pub fn clones(g: &mut Gen, kinds: &[&str]) {
+    for &size in &[0usize, 1, 64, 200, 4200] {
+        let bits = crate::gen_bv::make_bits(g, size, if size > 1000 { 2 } else { 6 });
+        let ones: Vec<u64> = bits.iter().enumerate().filter(|(_, b)| **b).map(|(i, _)| i as u64).collect();
+        let ws = |v: &[u64]| v.iter().map(|x| x.to_string()).collect::<Vec<_>>().join(" ");
+        let probes: Vec<usize> = vec![0, 1, size / 3, size / 2, size.saturating_sub(1), size, size + 1];
+        for &k in kinds {
+            let mut lines: Vec<String> = Vec::new();
+            match k {
+                "raw" => {
+                    lines.push(format!("raw A from_words {} {}", size, crate::gen_bv::words_of_bits(&bits)));
+                    lines.push("obj clone A B".to_string());
+                    lines.push("raw A push_int 12345 17".to_string()); lines.push("raw A push_bit 1".to_string());
+                    if size > 0 { lines.push(format!("raw A set_bit {} {}", size / 2, if bits[size / 2] { 0 } else { 1 })); }
+                    lines.push("raw B state".to_string()); lines.push("raw B ser".to_string());
+                    for &i in &probes { if i < size { lines.push(format!("raw B bit {}", i)); } }
+                    lines.push("obj clone B C".to_string()); lines.push("raw C eq B".to_string()); lines.push("raw B push_bit 1".to_string()); lines.push("raw C state".to_string());
+                }
+                "iv" => {
+                    let w = [1u64, 7, 13, 33, 64][size % 5];
+                    let n = std::cmp::min(size, 300);
+                    let items: Vec<u64> = (0..n).map(|_| g.rng.next() & if w == 64 { !0 } else { (1u64 << w) - 1 }).collect();
+                    lines.push(format!("iv A new {}", w)); if !items.is_empty() { lines.push(format!("iv A extend {}", ws(&items))); }
+                    lines.push("obj clone A B".to_string());
+                    lines.push("iv A push 1".to_string()); if n > 0 { lines.push(format!("iv A set {} 0", n / 2)); lines.push("iv A pop".to_string()); lines.push("iv A pop".to_string()); }
+                    lines.push("iv B state".to_string()); lines.push("iv B items".to_string()); lines.push("iv B ser".to_string());
+                    lines.push("obj clone B C".to_string()); lines.push("iv C eq B".to_string()); lines.push("iv B push 0".to_string()); lines.push("iv C state".to_string()); lines.push("iv C items".to_string());
+                }
+                "bv" => {
+                    for sub in ["", "r", "sz", "rsz"] {
+                        lines.push(format!("bv A from_raw {} {}", size, crate::gen_bv::words_of_bits(&bits)));
+                        if !sub.is_empty() { lines.push(format!("bv A enable {}", sub)); }
+                        lines.push("obj clone A B".to_string()); lines.push("bv B supports".to_string()); lines.push("bv B eq A".to_string()); lines.push("bv B ser".to_string());
+                        lines.push("bv A enable rsz".to_string()); lines.push("bv B supports".to_string());
+                        lines.push("bv B enable rsz".to_string());
+                        for &i in &probes { lines.push(format!("bv B rank {}", i)); lines.push(format!("bv B select {}", i / 2)); lines.push(format!("bv B select0 {}", i / 2)); lines.push(format!("bv B pred {}", i)); lines.push(format!("bv B succ {}", i)); }
+                        lines.push("bv B it one : n b l n b".to_string());
+                    }
+                }
+                "sp" => {
+                    lines.push(format!("sp A build {} 0 {}", size, ws(&ones)).trim_end().to_string());
+                    lines.push("obj clone A B".to_string()); lines.push("drop A".to_string());
+                    lines.push("sp B len".to_string()); lines.push("sp B ones".to_string()); lines.push("sp B ser".to_string());
+                    for &i in &probes { if i < size { lines.push(format!("sp B get {}", i)); } lines.push(format!("sp B rank {}", i)); lines.push(format!("sp B select {}", i / 2)); lines.push(format!("sp B select0 {}", i / 2)); lines.push(format!("sp B pred {}", i)); lines.push(format!("sp B succ {}", i)); }
+                    lines.push("sp B it one : n b l n b".to_string());
+                }
+                "rl" => {
+                    let mut runs: Vec<(u64, u64)> = Vec::new();
+                    for &p in &ones { if let Some(l) = runs.last_mut() { if l.0 + l.1 == p { l.1 += 1; continue; } } runs.push((p, 1)); }
+                    let calls: Vec<String> = runs.iter().map(|(a, l)| format!("s{},{}", a, l)).collect();
+                    lines.push(format!("rl A build : {} l{}", calls.join(" "), size).replace(":  l", ": l"));
+                    lines.push("obj clone A B".to_string()); lines.push("drop A".to_string());
+                    lines.push("rl B len".to_string()); lines.push("rl B ones".to_string()); lines.push("rl B runs".to_string()); lines.push("rl B ser".to_string());
+                    for &i in &probes { if i < size { lines.push(format!("rl B get {}", i)); } lines.push(format!("rl B rank {}", i)); lines.push(format!("rl B select {}", i / 2)); lines.push(format!("rl B select0 {}", i / 2)); lines.push(format!("rl B pred {}", i)); lines.push(format!("rl B succ {}", i)); }
+                }
+                "wm" => {
+                    let n = std::cmp::min(size, 400);
+                    let vals: Vec<u64> = (0..n).map(|_| g.rng.below(if size % 2 == 0 { 9 } else { 700 })).collect();
+                    lines.push(format!("wm A from u64 {}", ws(&vals)).trim_end().to_string());
+                    lines.push("obj clone A B".to_string()); lines.push("drop A".to_string());
+                    lines.push("wm B len".to_string()); lines.push("wm B width".to_string()); lines.push("wm B items".to_string()); lines.push("wm B ser".to_string());
+                    for v in [0u64, 1, 5, 8, 9, 699] { for &i in &probes { if i <= n { lines.push(format!("wm B rank {} {}", i, v)); lines.push(format!("wm B pred {} {}", i, v)); lines.push(format!("wm B succ {} {}", i, v)); } } lines.push(format!("wm B select 1 {}", v)); lines.push(format!("wm B contains {}", v)); }
+                }
+                _ => panic!("clones: unknown kind"),
+            }
+            g.group(lines);
+        }
+        // `clone_from` into an EXISTING object of the same kind that has its own content, size and supports
+        let other = crate::gen_bv::make_bits(g, [130usize, 0, 4200, 64, 1][size % 5], 3);
+        let oth_ones: Vec<u64> = other.iter().enumerate().filter(|(_, b)| **b).map(|(i, _)| i as u64).collect();
+        for &k in kinds {
+            let mut lines: Vec<String> = Vec::new();
+            match k {
+                "raw" => {
+                    lines.push(format!("raw S from_words {} {}", size, crate::gen_bv::words_of_bits(&bits)));
+                    lines.push(format!("raw D from_words {} {}", other.len(), crate::gen_bv::words_of_bits(&other)));
+                    lines.push("obj clone_from S D".to_string()); lines.push("raw D state".to_string()); lines.push("raw D ser".to_string()); lines.push("raw D eq S".to_string());
+                    lines.push("raw D push_int 77 9".to_string()); lines.push("raw D state".to_string()); lines.push("raw S state".to_string());
+                }
+                "iv" => {
+                    lines.push("iv S new 9".to_string()); lines.push(format!("iv S extend {}", ws(&ones.iter().map(|x| x % 512).collect::<Vec<_>>())).trim_end().to_string());
+                    lines.push("iv D new 33".to_string()); lines.push(format!("iv D extend {}", ws(&oth_ones)).trim_end().to_string());
+                    lines.push("obj clone_from S D".to_string()); lines.push("iv D state".to_string()); lines.push("iv D items".to_string()); lines.push("iv D ser".to_string()); lines.push("iv D eq S".to_string());
+                    lines.push("iv D push 3".to_string()); lines.push("iv D state".to_string()); lines.push("iv S state".to_string());
+                }
+                "bv" => {
+                    for (ssub, dsub) in [("", "rsz"), ("r", "sz"), ("rsz", ""), ("s", "s")] {
+                        lines.push(format!("bv S from_raw {} {}", size, crate::gen_bv::words_of_bits(&bits)));
+                        if !ssub.is_empty() { lines.push(format!("bv S enable {}", ssub)); }
+                        lines.push(format!("bv D from_raw {} {}", other.len(), crate::gen_bv::words_of_bits(&other)));
+                        if !dsub.is_empty() { lines.push(format!("bv D enable {}", dsub)); }
+                        lines.push("obj clone_from S D".to_string()); lines.push("bv D supports".to_string()); lines.push("bv D eq S".to_string()); lines.push("bv D ser".to_string());
+                        lines.push("bv D enable rsz".to_string());
+                        for &i in &probes { lines.push(format!("bv D rank {}", i)); lines.push(format!("bv D select {}", i / 2)); lines.push(format!("bv D select0 {}", i / 2)); lines.push(format!("bv D pred {}", i)); lines.push(format!("bv D succ {}", i)); }
+                    }
+                }
+                "sp" => {
+                    lines.push(format!("sp S build {} 0 {}", size, ws(&ones)).trim_end().to_string());
+                    lines.push(format!("sp D build {} 0 {}", other.len(), ws(&oth_ones)).trim_end().to_string());
+                    lines.push("obj clone_from S D".to_string()); lines.push("sp D len".to_string()); lines.push("sp D ones".to_string()); lines.push("sp D ser".to_string());
+                    for &i in &probes { lines.push(format!("sp D rank {}", i)); lines.push(format!("sp D select {}", i / 2)); lines.push(format!("sp D pred {}", i)); lines.push(format!("sp D succ {}", i)); }
+                }
+                "rl" => {
+                    let mk = |os: &Vec<u64>, n: usize| { let mut runs: Vec<(u64, u64)> = Vec::new(); for &p in os { if let Some(l) = runs.last_mut() { if l.0 + l.1 == p { l.1 += 1; continue; } } runs.push((p, 1)); }
+                        let calls: Vec<String> = runs.iter().map(|(a, l)| format!("s{},{}", a, l)).collect(); format!("{} l{}", calls.join(" "), n).trim_start().to_string() };
+                    lines.push(format!("rl S build : {}", mk(&ones, size))); lines.push(format!("rl D build : {}", mk(&oth_ones, other.len())));
+                    lines.push("obj clone_from S D".to_string()); lines.push("rl D len".to_string()); lines.push("rl D ones".to_string()); lines.push("rl D runs".to_string()); lines.push("rl D ser".to_string());
+                    for &i in &probes { lines.push(format!("rl D rank {}", i)); lines.push(format!("rl D select {}", i / 2)); lines.push(format!("rl D pred {}", i)); lines.push(format!("rl D succ {}", i)); }
+                }
+                "wm" => {
+                    let n = std::cmp::min(size, 300);
+                    let vals: Vec<u64> = (0..n).map(|_| g.rng.below(11)).collect();
+                    let ovals: Vec<u64> = (0..std::cmp::min(other.len(), 200)).map(|_| g.rng.below(5000)).collect();
+                    lines.push(format!("wm S from u64 {}", ws(&vals)).trim_end().to_string()); lines.push(format!("wm D from u64 {}", ws(&ovals)).trim_end().to_string());
+                    lines.push("obj clone_from S D".to_string()); lines.push("wm D len".to_string()); lines.push("wm D width".to_string()); lines.push("wm D items".to_string()); lines.push("wm D ser".to_string());
+                    for v in [0u64, 1, 5, 10, 11, 4999] { lines.push(format!("wm D rank {} {}", n / 2, v)); lines.push(format!("wm D select 1 {}", v)); lines.push(format!("wm D contains {}", v)); }
+                }
+                _ => panic!("clones: unknown kind"),
+            }
+            g.group(lines);
+        }
+    }
 }
